@@ -337,6 +337,7 @@ class Weaver:
         if spec.get('prelude_text'):
             u.add(spec['prelude_text'], tag='prelude:inline')
         strip_modules = spec.get('strip_modules', [])
+        self._fn_names = [re.search(r'fn\s+(\w+)', it['path']).group(1) for it in spec.get('item', []) if re.search(r'(^|/)\s*fn\s+\w+', it['path'])]
         open_impl = None
         impl_extra = {e['impl']: e['text'] for e in spec.get('impl_extra', [])}
         for it in spec.get('item', []):
@@ -445,6 +446,11 @@ class Weaver:
         text = r10_hash_call(text, u.rewrites, file, base_line)
         text = r11_const_static(text, u.rewrites, file, base_line)
         text = r5_self_path(text, u.rewrites, file, base_line, strip_modules)
+        for fnname in getattr(self, '_fn_names', []):
+            text2 = re.sub(r'(?<![A-Za-z0-9_:])(?:crate::|self::|super::)(?:[a-z_][a-z0-9_]*::)*' + re.escape(fnname) + r'(?=\s*\()', fnname, text)
+            if text2 != text:
+                u.rewrites.append(('R5', file, base_line, f'path to extracted fn {fnname} shortened'))
+                text = text2
         return text
 
 
